@@ -14,6 +14,8 @@ CONSTANTS
   HVals = {0, 1}
   HMod = 840
   MaxSched = 3
+  FaultKinds = {}
+  Deviation = "none"
   MaxFired = 1
   ScenLen = 6
   SetupLen = 1
